@@ -278,4 +278,138 @@ def gen_tridi():
     return 'Tridi.lean', '\n'.join(lines), echo
 
 
-GENERATORS = [gen_tridi]
+# ---------------------------------------------------------------------------------------------
+# dpss_windows: the commuting tridiagonal matrix and the autocorrelation weights
+#   diagonal = <expr in N, nidx, np.cos(2*np.pi*W)>       -> diagGen N n cw
+#   off_diag[:-1] = <expr in N, nidx[1:]>                  -> offGen N n1     (n1 = nidx[1:] entry = i+1)
+#   W = float(NW) / N ; nidx = np.arange(N, dtype='d')     -> checked, flags
+#   r = <expr in W, nidx, np.sinc(.)> ; r[0] = <expr in W> -> rGen W n sinc / r0Gen W
+#   eigvals_banded(..., select_range=(N - Kmax, N - 1)) ; w = w[::-1]   -> flags
+# Expression fragment: names N, W, numbers, + - * /, ** <small int>, np.cos(2*np.pi*W) (-> cw),
+# nidx (-> n), nidx[1:] (-> n1), np.sinc(e) (-> sinc (e)).
+# ---------------------------------------------------------------------------------------------
+def _is_np(node, attr):
+    return isinstance(node, ast.Attribute) and node.attr == attr and isinstance(node.value, ast.Name) \
+        and node.value.id == 'np'
+
+
+def _is_two_pi_W(node):
+    """2 * np.pi * W in any association / order"""
+    facs = []
+
+    def flat(n):
+        if isinstance(n, ast.BinOp) and isinstance(n.op, ast.Mult):
+            flat(n.left); flat(n.right)
+        else:
+            facs.append(n)
+    flat(node)
+    kinds = []
+    for f in facs:
+        if isinstance(f, ast.Constant) and f.value in (2, 2.0):
+            kinds.append('2')
+        elif _is_np(f, 'pi'):
+            kinds.append('pi')
+        elif isinstance(f, ast.Name) and f.id == 'W':
+            kinds.append('W')
+        else:
+            return False
+    return sorted(kinds) == ['2', 'W', 'pi']
+
+
+def _dexpr(node, env):
+    """env: python name/pattern -> lean variable"""
+    if isinstance(node, ast.Constant) and isinstance(node.value, (int, float)) and not isinstance(node.value, bool):
+        v = node.value
+        if float(v) != int(v) or v < 0:
+            raise Unsupported('non-integral constant %r' % (v,))
+        return '((%d : Nat) : K)' % int(v)
+    if isinstance(node, ast.Name) and node.id in env:
+        return env[node.id]
+    if isinstance(node, ast.Subscript) and isinstance(node.value, ast.Name) and node.value.id == 'nidx' \
+            and isinstance(node.slice, ast.Slice) and node.slice.upper is None and node.slice.step is None \
+            and isinstance(node.slice.lower, ast.Constant) and node.slice.lower.value == 1 and 'nidx[1:]' in env:
+        return env['nidx[1:]']
+    if isinstance(node, ast.Call) and _is_np(node.func, 'cos') and len(node.args) == 1 and not node.keywords \
+            and _is_two_pi_W(node.args[0]) and 'cos2piW' in env:
+        return env['cos2piW']
+    if isinstance(node, ast.Call) and _is_np(node.func, 'sinc') and len(node.args) == 1 and not node.keywords \
+            and 'sinc' in env:
+        return '(%s (%s))' % (env['sinc'], _dexpr(node.args[0], env))
+    if isinstance(node, ast.BinOp) and isinstance(node.op, (ast.Add, ast.Sub, ast.Mult, ast.Div)):
+        op = {ast.Add: '+', ast.Sub: '-', ast.Mult: '*', ast.Div: '/'}[type(node.op)]
+        return '(%s %s %s)' % (_dexpr(node.left, env), op, _dexpr(node.right, env))
+    if isinstance(node, ast.BinOp) and isinstance(node.op, ast.Pow) and isinstance(node.right, ast.Constant) \
+            and isinstance(node.right.value, int) and 0 <= node.right.value <= 4:
+        b = _dexpr(node.left, env)
+        if node.right.value == 0:
+            return '((1 : Nat) : K)'
+        return '(' + ' * '.join([b] * node.right.value) + ')'
+    raise Unsupported('expression ' + ast.unparse(node)[:80])
+
+
+def gen_dpss():
+    echo = {}
+    items = {}     # name -> (signature, body or None, reason)
+    flags = {}
+    try:
+        fn = tr.find_func(tr.parse('nitime/utils.py'), 'dpss_windows')
+        if fn is None:
+            raise Unsupported('def dpss_windows not found')
+        assigns = {}
+        for node in ast.walk(fn):
+            if isinstance(node, ast.Assign) and len(node.targets) == 1:
+                assigns.setdefault(ast.unparse(node.targets[0]), []).append(node.value)
+
+        def one(name):
+            vs = assigns.get(name, [])
+            if len(vs) != 1:
+                raise Unsupported('%d assignments to %s' % (len(vs), name))
+            return vs[0]
+
+        def attempt(key, sig, target, env):
+            try:
+                v = one(target)
+                items[key] = (sig, _dexpr(v, env))
+                echo[key] = {'source': '%s = %s' % (target, ast.unparse(v)), 'lean': items[key][1]}
+            except Unsupported as e:
+                items[key] = (sig, None)
+                echo[key] = 'UNSUPPORTED: %s' % e
+        attempt('diagGen', '(N n cw : K)', 'diagonal', {'N': 'N', 'nidx': 'n', 'cos2piW': 'cw'})
+        attempt('offGen', '(N n1 : K)', 'off_diag[:-1]', {'N': 'N', 'nidx[1:]': 'n1'})
+        attempt('rGen', '(W n : K) (sinc : K → K)', 'r', {'W': 'W', 'nidx': 'n', 'sinc': 'sinc'})
+        attempt('r0Gen', '(W : K)', 'r[0]', {'W': 'W'})
+        src = {k: ast.unparse(one(k)) for k in ('W', 'nidx') if len(assigns.get(k, [])) == 1}
+        flags['wIsNWoverN'] = src.get('W') in ('float(NW) / N', 'NW / float(N)', 'float(NW) / float(N)')
+        flags['nidxIsArange'] = src.get('nidx') in ("np.arange(N, dtype='d')", 'np.arange(N, dtype=float)',
+                                                    "np.arange(N, dtype='float64')")
+        sel = [ast.unparse(k.value) for n in ast.walk(fn) if isinstance(n, ast.Call)
+               and ast.unparse(n.func).endswith('eigvals_banded') for k in n.keywords if k.arg == 'select_range']
+        flags['selectsTopKmax'] = sel == ['(N - Kmax, N - 1)']
+        flags['reversesEigs'] = [ast.unparse(v) for v in assigns.get('w', [])][-1:] == ['w[::-1]']
+        calls = [n for n in ast.walk(fn) if isinstance(n, ast.Call) and ast.unparse(n.func) == 'tridi_inverse_iteration']
+        flags['inverseIterationArgs'] = len(calls) == 1 and [ast.unparse(a) for a in calls[0].args] == \
+            ['diagonal', 'off_diag', 'w[k]']
+        ab = {k: [ast.unparse(v) for v in vs] for k, vs in assigns.items() if k.startswith('ab[')}
+        flags['bandedStorage'] = ab == {'ab[1]': ['diagonal'], 'ab[0, 1:]': ['off_diag[:-1]']}
+        echo['flags'] = dict(flags)
+    except (Unsupported, SyntaxError, OSError) as e:
+        echo['error'] = 'UNSUPPORTED: %s' % e
+    lines = ['-- GENERATED by harness/translate_c07.py from nitime/utils.py (dpss_windows). DO NOT EDIT.',
+             'namespace Nitime.Generated.Dpss', '',
+             'variable {K : Type} [Add K] [Sub K] [Mul K] [Div K] [NatCast K]', '']
+    for key, sig in (('diagGen', '(N n cw : K)'), ('offGen', '(N n1 : K)'), ('rGen', '(W n : K) (sinc : K → K)'),
+                     ('r0Gen', '(W : K)')):
+        body = items.get(key, (sig, None))[1]
+        if body is None:
+            lines.append('/- UNSUPPORTED: %s -/' % re.sub(r'[^ -~]', '?', str(echo.get(key, echo.get('error', ''))))[:200].replace('-/', '- /'))
+            lines.append('def %s %s : K := ((0 : Nat) : K)' % (key, sig))
+        else:
+            lines.append('def %s %s : K := %s' % (key, sig, body))
+        lines.append('')
+    for k in ('wIsNWoverN', 'nidxIsArange', 'selectsTopKmax', 'reversesEigs', 'inverseIterationArgs', 'bandedStorage'):
+        lines.append('def %s : Bool := %s' % (k, 'true' if flags.get(k) else 'false'))
+    lines += ['', 'end Nitime.Generated.Dpss', '']
+    return 'Dpss.lean', '\n'.join(lines), echo
+
+
+GENERATORS = [gen_tridi, gen_dpss]
